@@ -143,6 +143,58 @@ def reach_states(word: str) -> bool:
     return True
 
 
+# ---- finite-alphabet variants (regex terminals: `re`/`regex` realise the word, so the engine exhausts the
+# stated alphabet by path splitting instead of reasoning over all code points) -------------------------------
+ALPHA = os.environ.get("H_ALPHA", "ab")
+
+
+def concretise(word):
+    """case split over the stated alphabet: one path per concrete word (CrossHair's own symbolic regex
+    matcher would otherwise explore thousands of partial-match paths for a handful of words)"""
+    out = ""
+    for c in word:
+        for a in ALPHA:
+            if c == a:
+                out += a
+                break
+        else:
+            raise IgnoreAttempt("outside the alphabet")
+    return out
+
+
+def sound_fa(word: str) -> bool:
+    """
+    pre: len(word) <= N and all(c in ALPHA for c in word)
+    post: _
+    """
+    return sound(concretise(word))
+
+
+def complete_fa(word: str) -> bool:
+    """
+    pre: len(word) <= N and all(c in ALPHA for c in word)
+    post: _
+    """
+    exclude_known("complete_fa", word=word, SPEC=SPEC)
+    return complete(concretise(word))
+
+
+def terminates_fa(word: str) -> bool:
+    """
+    pre: len(word) <= N and all(c in ALPHA for c in word)
+    post: _
+    """
+    return terminates(concretise(word))
+
+
+def reach_fa(word: str) -> bool:
+    """
+    pre: len(word) <= N and all(c in ALPHA for c in word)
+    post: _
+    """
+    return reach(concretise(word))
+
+
 # ------------------------------------------------------------------------------------------------
 CONF_NAMES = ["prefix", "list", "nested", "amb", "rec", "uni", "open", "rx1", "rx2", "rxstar", "rxopt", "rxuni"]
 CONF_G = {n: load(n) for n in CONF_NAMES} if os.environ.get("VERIF_CONFORM") else {}
@@ -171,12 +223,12 @@ CONFORMANCE = [
     ("obs_forest", ["uni", "q\xe9", "<alt>"]),
     ("obs_forest", ["open", "aaab"]),
     ("obs_forest", ["open", "abbb"]),
-    ("obs_forest", ["rx1", "abac"]),
-    ("obs_forest", ["rx1", "c"]),
-    ("obs_forest", ["rx2", "x12y"]),
-    ("obs_forest", ["rx2", "x12b"]),
-    ("obs_forest", ["rxstar", "aabx"]),
-    ("obs_forest", ["rxopt", "xy"]),
-    ("obs_forest", ["rxopt", "x7y"]),
-    ("obs_forest", ["rxuni", "a\xe9a!"]),
+    ("obs_forest", ["rx1", "abac"], "concrete"),
+    ("obs_forest", ["rx1", "c"], "concrete"),
+    ("obs_forest", ["rx2", "x12y"], "concrete"),
+    ("obs_forest", ["rx2", "x12b"], "concrete"),
+    ("obs_forest", ["rxstar", "aabx"], "concrete"),
+    ("obs_forest", ["rxopt", "xy"], "concrete"),
+    ("obs_forest", ["rxopt", "x7y"], "concrete"),
+    ("obs_forest", ["rxuni", "a\xe9a!"], "concrete"),
 ]
